@@ -309,6 +309,7 @@ Section MQ.
   Qed.
 
   Hypothesis Q_sys : forall c ty p k, ty <> UNKNOWN -> sys_icb k -> Qm (new_msg c ty p RNone k).
+  Hypothesis Q_frag : forall c fid idx p r, Qm (new_msg c APP_FRAGMENT p r (IFrag fid idx)).
 
   Lemma recv_msgs_MI ms c now orcs c' o : MI c -> recv_msgs c now ms orcs = (c', o) -> MI c'.
   Proof.
@@ -346,10 +347,16 @@ Section MQ.
     unfold handle_ack_bits in E1. eapply recv_msgs_MI; [|exact E2]. eapply ack_loop_MI; eassumption.
   Qed.
 
-  (* A's application: a new APP message satisfying Qm (unfragmented traffic), connection kept open *)
+  Lemma send_frags_MI frags : forall c fid n r i, MI c -> MI (send_frags c fid n r i frags).
+  Proof.
+    induction frags as [|f rest IH]; intros c fid n r i H; cbn [send_frags]; [exact H|].
+    apply IH. apply send_type_MI; [apply Q_frag|exact H].
+  Qed.
+
+  (* A's application: an unfragmented send creates an APP message satisfying Qm; connection kept open *)
   Definition ev_new (e : env) (c : conn) (x : ev) : Prop :=
     match x with
-    | ESend p r k => len p <= e_max_payload e /\ Qm (new_msg c APP p r k)
+    | ESend p r k => len p <= e_max_payload e -> Qm (new_msg c APP p r k)
     | _ => True
     end.
 
@@ -362,11 +369,27 @@ Section MQ.
                       c_packs c1 = c_packs c -> MI c1 /\ PK c1 /\ psub c c1).
     { intros c1 O Pm C A. split; [eapply MI_upd; eassumption|]. split; [eapply PK_upd; eassumption|apply psub_eq; exact C]. }
     destruct x; cbn [step] in E; cbn [ev_open ev_new] in *.
-    - (* send of a small payload *)
-      destruct Hnew as [Hl Hq]. unfold send in E. destruct (negb _); [injection E as <- <-; split; [exact HN|split; [exact HP|apply Link_psub, psub_refl]]|].
-      assert (len p >? e_max_payload e = false) as Hg by lia. rewrite Hg in E. injection E as <- <-.
-      split; [apply send_type_MI; assumption|]. split; [eapply PK_upd; [| |exact HP]; reflexivity|].
-      apply Link_psub, psub_eq. reflexivity.
+    - (* send *)
+      pose proof (send_frame _ _ _ _ _ _ _ E) as [_ Ne]. pose proof (send_ack _ _ _ _ _ _ _ E) as [Pa _ _ _ _].
+      unfold send in E. destruct (negb _); [injection E as <- <-; split; [exact HN|split; [exact HP|apply Link_psub, psub_refl]]|].
+      destruct (len p >? e_max_payload e) eqn:Eg.
+      + destruct (len p >? e_max_frag e * e_max_frags e); injection E as <- <-.
+        * split; [eapply MI_upd; [| | |exact HN]; reflexivity|]. split; [eapply PK_upd; [| |exact HP]; reflexivity|].
+          apply Link_psub, psub_eq. reflexivity.
+        * set (frags := split_frags (Datatypes.S (length p)) e p) in *.
+          set (c0 := c <| c_seq_frag := seq_succ (c_seq_frag c) |>) in *.
+          assert (N0 : MI c0) by (eapply MI_upd; [| | |exact HN]; reflexivity).
+          pose proof (send_frags_MI frags c0 (seq_succ (c_seq_frag c)) (len frags) r 0 N0) as N1.
+          destruct (send_frags_fields frags c0 (seq_succ (c_seq_frag c)) (len frags) r 0) as [_ Hpc].
+          split; [eapply MI_upd; [| | |exact N1]; reflexivity|].
+          assert (Hpc' : c_pcbs ((send_frags c0 (seq_succ (c_seq_frag c)) (len frags) r 0 frags)
+                           <| c_pfrags := dset (seq_succ (c_seq_frag c)) {| fs_ucb := k; fs_acks := repeat None (length frags) |}
+                                (c_pfrags (send_frags c0 (seq_succ (c_seq_frag c)) (len frags) r 0 frags)) |>) = c_pcbs c) by exact Hpc.
+          split; [eapply PK_upd; [exact Hpc'|exact Pa|exact HP]|].
+          apply Link_psub, psub_eq. exact Hpc'.
+      + injection E as <- <-.
+        split; [apply send_type_MI; [apply Hnew; lia|exact HN]|]. split; [eapply PK_upd; [| |exact HP]; reflexivity|].
+        apply Link_psub, psub_eq. reflexivity.
     - unfold client_tick in E.
       destruct (client_update c now) as [c0 o0] eqn:E0.
       assert (H0 : (MI c0 /\ PK c0 /\ psub c c0) /\ AInv S Ka c0 n /\ no_emit o0 /\ c_seq_send c0 = c_seq_send c).
